@@ -33,7 +33,7 @@ COMPONENTS = {
     'stub': ['WSGI/ASGI servers', 'event loop scheduler', 'generated middleware / hooks / responder / '
              'error handler', 'reference interpreter (oracle)'],
 }
-EXPECTED_PROBES = ('dependent_mode', 'independent_mode', 'unrouted', 'complete_reached', 'raise_in_response',
+EXPECTED_PROBES = ('second_request', 'dependent_mode', 'independent_mode', 'unrouted', 'complete_reached', 'raise_in_response',
                    'handler_called', 'hook_raised', 'lifespan_startup_failed', 'lifespan_shutdown_failed',
                    'asgi_stack', 'wsgi_stack')
 ASSUMPTIONS = (
@@ -205,14 +205,14 @@ def setup_handlers(handler_act):
     def extra(app, st):
         if st.asgi:
             async def handler(req, resp, ex, params):
-                st.trace.append('handler')
+                st.lane(req)[0].append('handler')
                 a = handler_act('handler')
                 if a is not None:
                     raise a
                 resp.status = 451
         else:
             def handler(req, resp, ex, params):
-                st.trace.append('handler')
+                st.lane(req)[0].append('handler')
                 a = handler_act('handler')
                 if a is not None:
                     raise a
@@ -240,8 +240,14 @@ def run_stack(ctx):
                      extra_setup=setup_handlers(act))
 
     path = '/r/x' if plan['routed'] else '/nope'
+    trace_b, args_b = [], []
+    second = None
+    if asgi and ch.draw(2, 'second_request'):
+        # a second, fault-free request interleaves on the same app (lane B)
+        second = ('/r/y', lambda st_: st_.add_lane('B', trace_b, args_b, lambda site: None))
+        ctx.probe('second_request')
     if asgi:
-        conn, st, finished, app_exc, sig = run_asgi(ctx, factory, path)
+        conn, st, finished, app_exc, sig = run_asgi(ctx, factory, path, second=second)
         mon = conn.monitor
         status = mon.status
         ctx.sched_key = 'A' + sig
@@ -273,6 +279,18 @@ def run_stack(ctx):
     elif status != want_status:
         ctx.violate('stack.status', 'final status %r, expected %r (actions %r, trace %r)' % (
             status, want_status, asg, trace), **sigk)
+    if second is not None:
+        plan_b = dict(plan)
+        plan_b['routed'] = True
+        wb_trace, wb_args, wb_status = reference(plan_b, {})
+        got_status_b = st.conn2.monitor.status
+        if st.exc2 is not None:
+            ctx.violate('stack.escaped', 'exception escaped the app (second request): %r' % (st.exc2,))
+        elif trace_b != wb_trace or args_b != wb_args or got_status_b != wb_status:
+            ctx.violate('stack.trace', 'a concurrent fault-free request on the same app saw trace %r / args %r / '
+                        'status %r, expected %r / %r / %r (first request: actions %r)' % (
+                            trace_b, args_b, got_status_b, wb_trace, wb_args, wb_status, asg),
+                        what='concurrent_request', **sigk)
     ctx.ops_done = len(trace)
     ctx.nontrivial = bool(reached)
     ctx.sched_key += '|' + json.dumps(asg, sort_keys=True)
